@@ -303,7 +303,7 @@ def argty_oracle(ctx, progs, res):
 
 def run(ctx):
     ctx.extract()
-    ctx.build_lean([m for m in ("GomlVerif.Props.C03", "GomlVerif.Props.C03pres", "GomlVerif.Props.C03Arity",
+    ctx.build_lean([m for m in ("GomlVerif.Props.C03", "GomlVerif.Props.C03pres", "GomlVerif.Props.C03Arity", "GomlVerif.Props.C03ArgTy",
                                 "GomlVerif.Props.Unify", "GomlVerif.Props.Solve")
                     if os.path.exists(os.path.join(vlib.LEAN, m.replace(".", "/") + ".lean"))])
     if not ctx.build_harness():
